@@ -432,6 +432,59 @@ func cmpChildren(a, b *childInfo) int {
 	return res
 }
 
+// definitelyBefore: o has the lower score, or the same score and was served
+// less recently.
+func definitelyBefore(o, c *childInfo) bool {
+	r := cmpChildren(o, c)
+	return r == -1 || (r == 0 && o.last.Before(c.last))
+}
+
+// queuedChildSet returns the keys of the child invocations of path that have
+// queued operations.
+func queuedChildSet(q *mScq, path []string) map[string]bool {
+	childSet := map[string]bool{}
+	for _, t := range q.queued {
+		if hasPrefixPath(t.path, path) && len(t.path) > len(path) {
+			childSet[t.path[len(path)]] = true
+		}
+	}
+	return childSet
+}
+
+// childInfos computes executing count, priority of the first operation and
+// last-served time of the given children of path.
+func (m *model) childInfos(pq *mPq, q *mScq, path []string, childSet map[string]bool) []*childInfo {
+	var children []*childInfo
+	for k := range childSet {
+		children = append(children, &childInfo{key: k})
+	}
+	sort.Slice(children, func(i, j int) bool { return children[i].key < children[j].key })
+	for _, c := range children {
+		cp := append(append([]string(nil), path...), c.key)
+		c.e = m.execCount(q, cp) + 1
+		seen := map[int32]bool{}
+		for _, t := range m.admissible(pq, q, nil, cp, false) {
+			if !seen[t.prio] {
+				seen[t.prio] = true
+				c.prios = append(c.prios, t.prio)
+			}
+		}
+		c.last = q.nodes[pathStr(cp)]
+	}
+	return children
+}
+
+// directBefore: the documented order of operations queued in one invocation.
+func directBefore(a, b *mTask) bool {
+	if a.prio != b.prio {
+		return a.prio < b.prio
+	}
+	if a.dur != b.dur {
+		return a.dur > b.dur
+	}
+	return a.queuedAt.Before(b.queuedAt)
+}
+
 // admissible returns the tasks the policy allows to be handed to worker w
 // (nil w: no stickiness) from the subtree at path.
 func (m *model) admissible(pq *mPq, q *mScq, w *mWorker, path []string, sticky bool) []*mTask {
@@ -454,23 +507,7 @@ func (m *model) admissible(pq *mPq, q *mScq, w *mWorker, path []string, sticky b
 	if len(childSet) == 0 {
 		return nil
 	}
-	var children []*childInfo
-	for k := range childSet {
-		children = append(children, &childInfo{key: k})
-	}
-	sort.Slice(children, func(i, j int) bool { return children[i].key < children[j].key })
-	for _, c := range children {
-		cp := append(append([]string(nil), path...), c.key)
-		c.e = m.execCount(q, cp) + 1
-		seen := map[int32]bool{}
-		for _, t := range m.admissible(pq, q, nil, cp, false) {
-			if !seen[t.prio] {
-				seen[t.prio] = true
-				c.prios = append(c.prios, t.prio)
-			}
-		}
-		c.last = q.nodes[pathStr(cp)]
-	}
+	children := m.childInfos(pq, q, path, childSet)
 	// Lowest score wins, ties go to the least recently served one.
 	var chosen []*childInfo
 	for _, c := range children {
@@ -479,7 +516,7 @@ func (m *model) admissible(pq *mPq, q *mScq, w *mWorker, path []string, sticky b
 			if o == c {
 				continue
 			}
-			if r := cmpChildren(o, c); r == -1 || (r == 0 && o.last.Before(c.last)) {
+			if definitelyBefore(o, c) {
 				ok = false
 			}
 		}
